@@ -3,4 +3,7 @@ import Csvq.Model.Basic
 import Csvq.Model.Compare
 import Csvq.Model.Float
 import Csvq.Model.Proto
+import Csvq.Drive.Loop
 import Csvq.Drive.C06
+import Csvq.Lemmas.Compare
+import Csvq.Props.C06
